@@ -22,6 +22,8 @@ type ChangelogCfg struct {
 	RetractSameTime bool
 	// ZeroTimeMix: in watermarked mode some records carry a zero event time (batch rows in a stream).
 	ZeroTimeMix bool
+	// RepeatWM: a watermark message may repeat the current watermark (non-decreasing, not strictly increasing).
+	RepeatWM bool
 	// LateRecords: some insertions carry an event time at or below the last watermark sent
 	// (late data). Only for properties that quantify over every input stream (C16); never
 	// where "inputs without late records" is a premise (C18, C19, C22).
@@ -117,7 +119,11 @@ func GenChangelog(t *Tape, cfg ChangelogCfg) []Msg {
 			}
 			msgs = append(msgs, Msg{Kind: MsgRec, Values: p.vals, Retr: true, ET: T(sec)})
 		case 2:
-			wm += 1 + t.Draw(3)
+			if cfg.RepeatWM && wm > 0 && t.Chance(1, 4) {
+				// the same watermark again
+			} else {
+				wm += 1 + t.Draw(3)
+			}
 			msgs = append(msgs, Msg{Kind: MsgWM, ET: T(wm)})
 		}
 	}
